@@ -47,6 +47,47 @@ CHECKS = {
         "technique": "property-based testing with a deterministic scheduler (explicit check-then-sleep window) and a deadlock oracle",
         "design_ref": "DESIGN.md section 3, harness chan, C03",
     },
+    "C14": {
+        "level": "exploration",
+        "text": "The shipped raw device is opened through the real driver table and driven through the HAL storage API with generated "
+                "frame-size sequences, packet groupings, URI spellings (plain/file://, relative/absolute), short-write and zero-length-write "
+                "patterns injected under platform.c's pwrite, and repeated set/start/append/stop cycles on one device (fresh path per "
+                "acquisition, as the statement restricts). After every acquisition in which start and all appends reported success the file is "
+                "read back and must equal the concatenation of the appended packets byte for byte.",
+        "note": "Trusts the vfd interposition (open/close/pwrite/flock of platform.c renamed), the scratch file system (/dev/shm), and the "
+                "generator's frame builder. Acquisitions during which the platform layer reported a failure to the device are not judged here (C16).",
+        "technique": "property-based testing (rapidcheck tapes, libFuzzer) with a round-trip oracle: file bytes == appended bytes, under injected short writes",
+        "design_ref": "DESIGN.md section 3, harness stor, C14",
+    },
+    "C15": {
+        "level": "exploration",
+        "text": "tiff and tiff-json devices are driven like C14 with generated shapes, all eight sample types, N>=1 frames in varying packet "
+                "groupings, generated JSON metadata (nesting, escapes, %, braces), pixel scales, URI spellings and repeated cycles. An independent "
+                "BigTIFF reader written for the harness (no code shared with tiff.cpp) walks the directory chain and checks header, chain length "
+                "== N, zero final link, all structures inside the file and pairwise disjoint, width/height/bits/sample format, strip bytes == "
+                "pixel bytes, and parses every ImageDescription with its own JSON parser to compare ids, timestamps and metadata (as a JSON "
+                "value); metadata.json is compared for tiff-json.",
+        "note": "Trusts the harness' BigTIFF/JSON reader (harness/stor/tiffread.hpp). Only the fields the statement lists are judged (tag order, "
+                "resolution tags, padding are not). Pixel scales are kept in [0,6]x[0,5] (larger values hit a float-to-uint conversion outside the statement).",
+        "technique": "property-based testing (rapidcheck tapes, libFuzzer) with an independent reader as round-trip oracle",
+        "design_ref": "DESIGN.md section 3, harness stor, C15",
+    },
+    "C16": {
+        "level": "fault_enumeration",
+        "text": "Every OS-level open/flock/pwrite issued by platform.c on behalf of a storage device goes through a descriptor ledger and fault "
+                "injector. Systematic part: for each storage kind (raw, tiff, tiff-json, trash) and each base life-cycle history (set->close, "
+                "start/stop without frames, frames in packets, repeated cycles, close while running, reuse after failure) the fault-free run is "
+                "measured and then re-run with the k-th open/flock/pwrite failing, transient and persistent, for every k (thorough) or a spread of "
+                "k (quick), plus zero-progress write patterns. Random part: rapidcheck tapes mixing faults into arbitrary histories. Oracles: "
+                "only descriptors the device opened and still holds are written/locked/closed; none left open after stop/close; no runaway "
+                "call count inside one device call (recursion/hang); when the platform layer reported a failed create/write during start/append "
+                "the device is not Running afterwards.",
+        "note": "Faults are those the injector produces at platform.c's open/flock/pwrite; std::filesystem calls in side-by-side-tiff.cpp are not "
+                "faulted. The storage sources are compiled with file_write/file_create wrapped so the oracle knows what the platform layer returned. "
+                "A write failure during start must make start fail; failures inside stop are only required not to crash/recurse/leak.",
+        "technique": "systematic fault enumeration over generated life-cycle histories + property-based testing with injected faults; descriptor ledger oracle",
+        "design_ref": "DESIGN.md section 3, harness stor, C16",
+    },
     "C11": {
         "level": "exploration",
         "text": "Generated HAL call sequences on up to 3 cameras and 3 storages run against an in-process mock driver whose every response "
